@@ -1,6 +1,6 @@
 """C11 — receiver collection is geometric, per-receiver and additive over patches."""
 import numpy as np
-from .. import common, kernels, pipeline, energy, scenes
+from .. import common, kernels, pipeline, energy, scenes, endtoend
 from . import c03
 
 LEVEL = 'proof'
@@ -93,6 +93,8 @@ def run(ctx):
         for rec in sc['recs']:
             pipeline.corr_collect(ctx, r, rec)
         check_receivers(ctx, sc, r)
+    sc = energy.gen_scene(ctx.rng, small=True, multi_dir=False, att_zero=False)
+    endtoend.corr_end_to_end(ctx, sc)
 
 
 def oracle(ctx, budget_s=60):
